@@ -20,6 +20,8 @@ type overlayEdit struct {
 	Old  string `json:"old"`
 	New  string `json:"new"`
 	Nth  int    `json:"nth"` // when > 0: old occurs several times, edit the nth occurrence (1-based)
+	// Patch, when set, replaces file/old/new: a unified diff (path relative to the verification directory) applied in memory
+	Patch string `json:"patch"`
 }
 
 func main() {
@@ -95,13 +97,29 @@ func check(args []string) (code int) {
 			fmt.Println("BROKEN:", err)
 			return 2
 		}
+		if m.Patch != "" {
+			pb, err := os.ReadFile(filepath.Join(*verif, m.Patch))
+			if err != nil {
+				fmt.Println("BROKEN:", err)
+				return 2
+			}
+			ov, err := applyUnifiedDiff(*repo, string(pb))
+			if err != nil {
+				fmt.Printf("BROKEN: mutant %s: %v\n", *mutant, err)
+				return 3
+			}
+			opts.Overlay = ov
+		}
 		abs := filepath.Join(*repo, m.File)
 		src, err := os.ReadFile(abs)
-		if err != nil {
+		if err != nil && m.Patch == "" {
 			fmt.Println("BROKEN:", err)
 			return 2
 		}
 		cnt := strings.Count(string(src), m.Old)
+		if m.Patch != "" {
+			cnt, m.Nth, m.Old = 1, 0, ""
+		}
 		if (m.Nth == 0 && cnt != 1) || (m.Nth > 0 && cnt < m.Nth) {
 			fmt.Printf("BROKEN: mutant %s: old text occurs %d times in %s\n", *mutant, cnt, m.File)
 			return 3
@@ -119,7 +137,9 @@ func check(args []string) (code int) {
 		} else {
 			edited = strings.Replace(edited, m.Old, m.New, 1)
 		}
-		opts.Overlay = map[string][]byte{abs: []byte(edited)}
+		if m.Patch == "" {
+			opts.Overlay = map[string][]byte{abs: []byte(edited)}
+		}
 	}
 	p, err := core.Load(opts)
 	if err != nil {
